@@ -1,6 +1,6 @@
 From Coq Require Import ExtrOcamlBasic String Ascii NArith List.
-From LLRP Require Import Discover.Naming Discover.Run.
+From LLRP Require Import Discover.Naming Discover.Run Discover.Config.
 Extraction Language OCaml.
 Extraction "model.ml" device_name probe_info prefix suffix hex_lower unhex unhex_digit_lower
   make_device_map skip probe_result probe_time script_outcome allowance worker_run run_time run_reported run_probed
-  discovered go_timers N.of_nat N.to_nat.
+  discovered crun last_delivered run_deadline go_timers N.of_nat N.to_nat.
